@@ -379,7 +379,26 @@ pub fn tree_strategy(max_entries: usize) -> impl Strategy<Value = TreeSpec> {
     let name = prop_oneof![8 => 0u8..5, 3 => 5u8..9, 1 => Just(9u8)];
     let leaf = prop_oneof![8 => (0u8..EXTS.len() as u8, content_strategy()).prop_map(|(ext, content)| Leaf::File { ext, content }), 1 => Just(Leaf::EmptyDir)];
     let entry = (prop::collection::vec(name, 1..5), leaf).prop_map(|(path, leaf)| EntrySpec { path, leaf });
-    prop::collection::vec(entry, 0..max_entries).prop_map(|entries| TreeSpec { entries })
+    // some files get siblings with the same stem and another extension
+    (prop::collection::vec(entry, 0..max_entries), prop::collection::vec((any::<u8>(), 2u8..4), 0..6)).prop_map(|(mut entries, dups)| {
+        for (i, ext) in dups {
+            if entries.is_empty() {
+                break;
+            }
+            let k = i as usize % entries.len();
+            // the pair (txt, x) or (txt, bin) under one stem
+            if let Leaf::File { ext: x, .. } = &mut entries[k].leaf {
+                *x = 1;
+            }
+            let mut e = entries[k].clone();
+            if let Leaf::File { ext: x, content } = &mut e.leaf {
+                *x = ext;
+                content.push(b'#');
+                entries.push(e);
+            }
+        }
+        TreeSpec { entries }
+    })
 }
 
 pub fn arch_opts_strategy() -> impl Strategy<Value = ArchOpts> {
